@@ -177,7 +177,7 @@ def handle : Handler := fun op inp impl => do
     -- C05 round trip
     let (rtH, rtTags) := match d0, lastOf d0 steps outs with
       | some d, some (pre, l, dl, ol) =>
-        if stepsOK pre ∧ endsWithFinalize l ol ∧ d.stratAnno = StratAnno.absent then
+        if stepsOK pre ∧ endsWithFinalize l ol ∧ userClean d then
           let g1 := guardUserRecreate d
           let g2 := guardUnclaimed dl
           ([("C05.pdeploy_round_trip", roundTripFull d pre l dl ol)],
